@@ -37,22 +37,32 @@ Fixpoint dots_ok (tok : bytes) : bool :=
   | c :: r => if c =? 46 then match r with [] => false | d :: _ => negb (d =? 46) && dots_ok r end else dots_ok r
   end.
 
+(* JSON numbers (the conjuncts after the first are consequences of the JSON
+   number syntax; they are kept as decidable side conditions) *)
 Definition num_ok (tok : bytes) : bool :=
+  json_num_syntax tok &&
   match tok with [] => false | _ => true end && forallb num_char tok && dots_ok tok &&
   bytes_eqb (trim_space tok) tok && go_float_syntax tok.
 
-(* strings of the property: no double quote, backslash, $ or ~ (parentheses are
-   harmless inside double quotes; the property excludes them as well) *)
-Definition str_ok (s : bytes) : bool := forallb (fun c => negb (mem c [34; 92; 36; 126])) s.
+(* strings of the property: printable, no double quote, backslash, $ or ~ *)
+Definition str_ok (s : bytes) : bool := forallb (fun c => negb (mem c [34; 92; 36; 126]) && (32 <=? c)) s.
 
-(* inline white space of the spacing variants *)
+(* white space of the renderings: inline (space, tab, \r) and line-breaking *)
 Definition ws_ok (w : bytes) : bool := forallb (fun c => mem c [32; 9; 13]) w.
+Definition wsn_ok (w : bytes) : bool := forallb (fun c => mem c [32; 9; 13; 10]) w.
 
-Record style := { s_open : bytes; s_cb : bytes; s_ca : bytes; s_colb : bytes; s_cola : bytes; s_close : bytes }.
-Definition style_ok (st : style) : bool :=
-  ws_ok (s_open st) && ws_ok (s_cb st) && ws_ok (s_ca st) && ws_ok (s_colb st) && ws_ok (s_cola st) && ws_ok (s_close st).
+(* a rendering style: the white space written at each position, as a function of
+   the nesting depth (indentation).  Line breaks are allowed after an opening
+   bracket, after a comma and before a closing bracket — not before a comma and
+   not around a colon (a line break between a colon and its value is known
+   finding 1). *)
+Record style := { s_open : nat -> bytes; s_cb : nat -> bytes; s_ca : nat -> bytes; s_colb : nat -> bytes;
+                  s_cola : nat -> bytes; s_close : nat -> bytes; s_empty : nat -> bytes }.
+Definition style_ok (st : style) : Prop := forall d,
+  wsn_ok (s_open st d) = true /\ ws_ok (s_cb st d) = true /\ wsn_ok (s_ca st d) = true /\
+  ws_ok (s_colb st d) = true /\ ws_ok (s_cola st d) = true /\ wsn_ok (s_close st d) = true /\
+  wsn_ok (s_empty st d) = true.
 
-(* documents: atoms, arrays and objects nested to any depth *)
 Fixpoint restricted (j : json) : bool :=
   match j with
   | JNull | JBool _ => true
@@ -73,7 +83,7 @@ Fixpoint canon (j : json) : json :=
 
 Section Print.
   Variable st : style.
-  Fixpoint print (j : json) : bytes :=
+  Fixpoint print (d : nat) (j : json) : bytes :=
     match j with
     | JNull => [110; 117; 108; 108]
     | JBool true => [116; 114; 117; 101]
@@ -81,41 +91,53 @@ Section Print.
     | JNum tok => tok
     | JStr s => 34 :: s ++ [34]
     | JArr l =>
-      91 :: s_open st ++
-      (fix items (l : list json) : bytes :=
-         match l with
-         | [] => []
-         | [x] => print x
-         | x :: r => print x ++ s_cb st ++ 44 :: s_ca st ++ items r
-         end) l ++ s_close st ++ [93]
+      91 :: match l with
+            | [] => s_empty st d
+            | _ => s_open st d ++
+              (fix items (l : list json) : bytes :=
+                 match l with
+                 | [] => []
+                 | [x] => print (S d) x
+                 | x :: r => print (S d) x ++ s_cb st d ++ 44 :: s_ca st d ++ items r
+                 end) l ++ s_close st d
+            end ++ [93]
     | JObj kvs =>
-      123 :: s_open st ++
-      (fix pairs (l : list (bytes * json)) : bytes :=
-         match l with
-         | [] => []
-         | [kv] => 34 :: fst kv ++ 34 :: s_colb st ++ 58 :: s_cola st ++ print (snd kv)
-         | kv :: r => (34 :: fst kv ++ 34 :: s_colb st ++ 58 :: s_cola st ++ print (snd kv)) ++
-                      s_cb st ++ 44 :: s_ca st ++ pairs r
-         end) kvs ++ s_close st ++ [125]
+      123 :: match kvs with
+             | [] => s_empty st d
+             | _ => s_open st d ++
+               (fix pairs (l : list (bytes * json)) : bytes :=
+                  match l with
+                  | [] => []
+                  | [kv] => 34 :: fst kv ++ 34 :: s_colb st d ++ 58 :: s_cola st d ++ print (S d) (snd kv)
+                  | kv :: r => (34 :: fst kv ++ 34 :: s_colb st d ++ 58 :: s_cola st d ++ print (S d) (snd kv)) ++
+                               s_cb st d ++ 44 :: s_ca st d ++ pairs r
+                  end) kvs ++ s_close st d
+             end ++ [125]
     end.
-  Fixpoint items (l : list json) : bytes :=
-    match l with
-    | [] => []
-    | [x] => print x
-    | x :: r => print x ++ s_cb st ++ 44 :: s_ca st ++ items r
-    end.
-  Lemma print_arr l : print (JArr l) = 91 :: s_open st ++ items l ++ s_close st ++ [93].
-  Proof. reflexivity. Qed.
-  Definition pair (kv : bytes * json) : bytes :=
-    34 :: fst kv ++ 34 :: s_colb st ++ 58 :: s_cola st ++ print (snd kv).
-  Fixpoint pairs (l : list (bytes * json)) : bytes :=
-    match l with
-    | [] => []
-    | [kv] => pair kv
-    | kv :: r => pair kv ++ s_cb st ++ 44 :: s_ca st ++ pairs r
-    end.
-  Lemma print_obj kvs : print (JObj kvs) = 123 :: s_open st ++ pairs kvs ++ s_close st ++ [125].
-  Proof. reflexivity. Qed.
+  Definition items (d : nat) : list json -> bytes :=
+    fix items (l : list json) : bytes :=
+      match l with
+      | [] => []
+      | [x] => print (S d) x
+      | x :: r => print (S d) x ++ s_cb st d ++ 44 :: s_ca st d ++ items r
+      end.
+  Definition pair (d : nat) (kv : bytes * json) : bytes :=
+    34 :: fst kv ++ 34 :: s_colb st d ++ 58 :: s_cola st d ++ print (S d) (snd kv).
+  Definition pairs (d : nat) : list (bytes * json) -> bytes :=
+    fix pairs (l : list (bytes * json)) : bytes :=
+      match l with
+      | [] => []
+      | [kv] => pair d kv
+      | kv :: r => pair d kv ++ s_cb st d ++ 44 :: s_ca st d ++ pairs r
+      end.
+  Definition arr_body (d : nat) (l : list json) : bytes :=
+    match l with [] => s_empty st d | _ => s_open st d ++ items d l ++ s_close st d end.
+  Definition obj_body (d : nat) (kvs : list (bytes * json)) : bytes :=
+    match kvs with [] => s_empty st d | _ => s_open st d ++ pairs d kvs ++ s_close st d end.
+  Lemma print_arr d l : print d (JArr l) = 91 :: arr_body d l ++ [93].
+  Proof. destruct l; reflexivity. Qed.
+  Lemma print_obj d kvs : print d (JObj kvs) = 123 :: obj_body d kvs ++ [125].
+  Proof. destruct kvs; reflexivity. Qed.
 End Print.
 
 (* ------------------------------------------------------------ characters *)
@@ -125,26 +147,51 @@ Lemma num_char_plain c : num_char c = true ->
   mem c [39; 34; 40; 123; 37] = false.
 Proof. unfold num_char, is_digit, unmodelled, is_term, mem. cbn [existsb]. lia. Qed.
 
-(* ------------------------------------------------------------ barewords *)
-Lemma bare_rest_num tok rest : forallb num_char tok = true ->
+Lemma wsn_char c : mem c [32; 9; 13; 10] = true ->
+  mem c [44; 32; 9; 13; 10] = true /\ is_term c = true /\ mem c [39; 34; 40; 123; 37] = false /\
+  (c =? 46) = false /\ (c =? 91) = false /\ (c =? 93) = false.
+Proof. unfold is_term, mem. cbn [existsb]. lia. Qed.
+
+Lemma ws_wsn w : ws_ok w = true -> wsn_ok w = true.
+Proof.
+  unfold ws_ok, wsn_ok. intro H. apply forallb_forall. intros c I. rewrite forallb_forall in H.
+  specialize (H c I). unfold mem in *. cbn [existsb] in *. lia.
+Qed.
+
+(* ------------------------------------------------------------ barewords, strings *)
+Definition plain_char (c : N) : bool := negb (is_term c) && negb (c =? 47).
+
+Lemma bare_rest_plain tok rest : forallb plain_char tok = true ->
   match rest with c :: _ => is_term c = true | [] => True end ->
   bare_rest (tok ++ rest) = (tok, rest).
 Proof.
   intros H T. induction tok as [|c tok IH].
   - destruct rest as [|c r]; [reflexivity|]. cbn [app bare_rest]. rewrite T. reflexivity.
-  - cbn [forallb] in H. apply andb_true_iff in H as [H1 H2].
-    destruct (num_char_plain c H1) as (_ & _ & _ & _ & _ & _ & T1 & S & _).
+  - cbn [forallb] in H. apply andb_true_iff in H as [H1 H2]. unfold plain_char in H1.
+    apply andb_true_iff in H1 as [T1 S]. apply negb_true_iff in T1, S.
     cbn [app bare_rest]. rewrite T1, S. cbn [andb]. rewrite (IH H2). reflexivity.
+Qed.
+
+Lemma num_plain tok : forallb num_char tok = true -> forallb plain_char tok = true.
+Proof.
+  intro H. apply forallb_forall. intros c I. rewrite forallb_forall in H. specialize (H c I).
+  destruct (num_char_plain c H) as (_ & _ & _ & _ & _ & _ & T1 & S & _). unfold plain_char. rewrite T1, S. reflexivity.
+Qed.
+
+Lemma num_ok_parts tok : num_ok tok = true ->
+  json_num_syntax tok = true /\ tok <> [] /\ forallb num_char tok = true /\ dots_ok tok = true /\
+  trim_space tok = tok /\ go_float_syntax tok = true.
+Proof.
+  unfold num_ok. intro H. repeat (apply andb_true_iff in H as [H ?]).
+  repeat split; try assumption; [destruct tok; [discriminate|discriminate]|apply bytes_eqb_eq; assumption].
 Qed.
 
 Lemma bareword_num tok : num_ok tok = true -> bareword_value tok = JNum tok.
 Proof.
-  unfold num_ok. intro H. repeat (apply andb_true_iff in H as [H ?]).
-  unfold bareword_value. match goal with E : bytes_eqb (trim_space tok) tok = true |- _ => apply bytes_eqb_eq in E; rewrite E end.
-  match goal with E : go_float_syntax tok = true |- _ => rewrite E end. reflexivity.
+  intro H. destruct (num_ok_parts tok H) as (_ & _ & _ & _ & T & G).
+  unfold bareword_value. rewrite T, G. reflexivity.
 Qed.
 
-(* ------------------------------------------------------------ strings *)
 Lemma p_string_ok s acc rest : str_ok s = true -> p_string acc (s ++ 34 :: rest) = Ok (rev acc ++ s, rest).
 Proof.
   revert acc. induction s as [|c s IH]; intros acc H.
@@ -156,21 +203,30 @@ Proof.
     rewrite E1, E2. rewrite (IH (c :: acc) H2). cbn [rev]. rewrite <- app_assoc. reflexivity.
 Qed.
 
+(* what follows a value in a rendering: white space, a comma or a closing bracket *)
+Definition delim_start (rest : bytes) : Prop :=
+  match rest with c :: _ => mem c [44; 32; 9; 13; 10; 93; 125] = true | [] => False end.
+
+Lemma delim_term rest : delim_start rest -> match rest with c :: _ => is_term c = true | [] => True end.
+Proof. destruct rest as [|c r]; [auto|]. unfold delim_start, is_term, mem. cbn [existsb]. lia. Qed.
+
+Lemma delim_start_ws w c rest : wsn_ok w = true -> mem c [44; 93; 125] = true -> delim_start (w ++ c :: rest).
+Proof.
+  intros H T. destruct w as [|d w]; [cbn [app delim_start]; unfold mem in *; cbn [existsb] in *; lia|].
+  unfold wsn_ok in H. cbn [forallb] in H. apply andb_true_iff in H as [H _].
+  cbn [app delim_start]. unfold mem in *. cbn [existsb] in *. lia.
+Qed.
+
 (* ------------------------------------------------------------ array maker *)
-(* scanning a printed document never sets the range flag: the scan either
-   stops early (quote, third bracket) or leaves the document with the bracket
-   count and the flag unchanged *)
 Section Maker.
   Variable st : style.
-  Hypothesis ST : style_ok st = true.
+  Hypothesis ST : style_ok st.
 
-  Lemma maker_ws w rest b mk : ws_ok w = true -> maker_scan (w ++ rest) b mk = maker_scan rest b mk.
+  Lemma maker_ws w rest b mk : wsn_ok w = true -> maker_scan (w ++ rest) b mk = maker_scan rest b mk.
   Proof.
     induction w as [|c w IH]; intro H; [reflexivity|].
-    unfold ws_ok in H. cbn [forallb] in H. apply andb_true_iff in H as [H1 H2].
-    cbn [app maker_scan].
-    assert (mem c [39; 34; 40; 123; 37] = false /\ (c =? 46) = false /\ (c =? 91) = false /\ (c =? 93) = false)
-      as (E1 & E2 & E3 & E4) by (unfold mem in *; cbn [existsb] in *; lia).
+    unfold wsn_ok in H. cbn [forallb] in H. apply andb_true_iff in H as [H1 H2].
+    cbn [app maker_scan]. destruct (wsn_char c H1) as (_ & _ & E1 & E2 & E3 & E4).
     rewrite E1, E2, E3, E4. apply IH. exact H2.
   Qed.
 
@@ -191,10 +247,6 @@ Section Maker.
     - rewrite E91, E93. apply IH; assumption.
   Qed.
 
-  Lemma ws_parts : ws_ok (s_open st) = true /\ ws_ok (s_cb st) = true /\ ws_ok (s_ca st) = true /\
-                   ws_ok (s_colb st) = true /\ ws_ok (s_cola st) = true /\ ws_ok (s_close st) = true.
-  Proof. unfold style_ok in ST. repeat (apply andb_true_iff in ST as [ST ?]). auto 10. Qed.
-
   Definition passes (t : bytes) : Prop := forall rest b, (1 <= b)%nat ->
     maker_scan (t ++ rest) b false = MkEarly \/ maker_scan (t ++ rest) b false = maker_scan rest b false.
 
@@ -204,106 +256,69 @@ Section Maker.
     rewrite E. apply B; exact Hb.
   Qed.
 
-  Lemma passes_ws w : ws_ok w = true -> passes w.
+  Lemma passes_ws w : wsn_ok w = true -> passes w.
   Proof. intros H rest b _. right. apply maker_ws; exact H. Qed.
 
   Lemma passes_comma : passes [44].
   Proof. intros rest b _. right. reflexivity. Qed.
 
-  Lemma passes_items l : Forall (fun j => passes (print st j)) l -> passes (items st l).
+  Lemma passes_items d l : Forall (fun j => passes (print st (S d) j)) l -> passes (items st d l).
   Proof.
-    destruct ws_parts as (_ & Wcb & Wca & _).
+    destruct (ST d) as (_ & Wcb & Wca & _).
     induction 1 as [|x l Hx Hl IH]; [intros rest b _; right; reflexivity|].
     destruct l as [|y l']; [exact Hx|].
-    change (items st (x :: y :: l')) with (print st x ++ s_cb st ++ 44 :: s_ca st ++ items st (y :: l')).
-    apply passes_app; [exact Hx|]. apply passes_app; [apply passes_ws; exact Wcb|].
-    change (44 :: s_ca st ++ items st (y :: l')) with ([44] ++ s_ca st ++ items st (y :: l')).
+    change (items st d (x :: y :: l')) with (print st (S d) x ++ s_cb st d ++ 44 :: s_ca st d ++ items st d (y :: l')).
+    apply passes_app; [exact Hx|]. apply passes_app; [apply passes_ws, ws_wsn; exact Wcb|].
+    change (44 :: s_ca st d ++ items st d (y :: l')) with ([44] ++ s_ca st d ++ items st d (y :: l')).
     apply passes_app; [apply passes_comma|]. apply passes_app; [apply passes_ws; exact Wca|exact IH].
   Qed.
 
-  Lemma maker_doc j : restricted j = true -> passes (print st j).
+  Lemma passes_arr_body d l : Forall (fun j => passes (print st (S d) j)) l -> passes (arr_body st d l).
   Proof.
-    destruct ws_parts as (Wo & _ & _ & _ & _ & Wc).
-    induction j as [|b0|tok|s|l IH|kvs IH] using json_ind'; intros R; cbn [restricted] in R;
-      [| | | | |intros rest b _; left; reflexivity].
+    destruct (ST d) as (Wo & _ & _ & _ & _ & Wc & We). intro F. unfold arr_body.
+    destruct l as [|x l']; [apply passes_ws; exact We|].
+    apply passes_app; [apply passes_ws; exact Wo|]. apply passes_app; [apply passes_items; exact F|apply passes_ws; exact Wc].
+  Qed.
+
+  Lemma maker_doc j : forall d, restricted j = true -> passes (print st d j).
+  Proof.
+    induction j as [|b0|tok|s|l IH|kvs IH] using json_ind'; intros d R; cbn [restricted] in R;
+      [| | | | |intros rest b _; left; rewrite print_obj; reflexivity].
     - intros rest b _. right. reflexivity.
     - intros rest b _. right. destruct b0; reflexivity.
-    - intros rest b _. right. unfold num_ok in R. repeat (apply andb_true_iff in R as [R ?]).
+    - intros rest b _. right. destruct (num_ok_parts tok R) as (_ & _ & NC & D & _).
       cbn [print]. apply maker_num; assumption.
     - intros rest b _. left. reflexivity.
     - (* array *)
-      assert (PI : passes (items st l)).
-      { apply passes_items. rewrite Forall_forall in IH |- *. intros x I. apply IH; [exact I|].
+      assert (PB : passes (arr_body st d l)).
+      { apply passes_arr_body. rewrite Forall_forall in IH |- *. intros x I. apply IH; [exact I|].
         rewrite forallb_forall in R. apply R; exact I. }
       intros rest b Hb. rewrite print_arr.
       destruct b as [|[|b']]; [lia| |left; reflexivity].
-      (* b = 1: the bracket opens level 2 and the matching one closes it *)
-      change ((91 :: s_open st ++ items st l ++ s_close st ++ [93]) ++ rest)
-        with (91 :: (s_open st ++ items st l ++ s_close st ++ [93]) ++ rest).
+      change ((91 :: arr_body st d l ++ [93]) ++ rest) with (91 :: (arr_body st d l ++ [93]) ++ rest).
       cbn [maker_scan mem existsb N.eqb Pos.eqb orb].
-      assert (PB : passes (s_open st ++ items st l ++ s_close st)).
-      { apply passes_app; [apply passes_ws; exact Wo|]. apply passes_app; [exact PI|apply passes_ws; exact Wc]. }
-      replace ((s_open st ++ items st l ++ s_close st ++ [93]) ++ rest)
-        with ((s_open st ++ items st l ++ s_close st) ++ 93 :: rest)
-        by (rewrite <- !app_assoc; reflexivity).
+      rewrite <- app_assoc. cbn [app].
       destruct (PB (93 :: rest) 2%nat ltac:(lia)) as [E|E]; [left; exact E|].
       right. rewrite E. reflexivity.
   Qed.
 
   (* parseArrayMaker never takes a JSON array for a `..` range *)
-  Theorem arraymaker_never_fires l rest : restricted (JArr l) = true ->
-    match print st (JArr l) ++ rest with
+  Theorem arraymaker_never_fires d l rest : restricted (JArr l) = true ->
+    match print st d (JArr l) ++ rest with
     | _ :: r => maker_scan r 1 false = MkEarly \/ maker_scan r 1 false = MkEnd false
     | [] => False
     end.
   Proof.
-    intro R. destruct ws_parts as (Wo & _ & _ & _ & _ & Wc).
-    rewrite print_arr. cbn [app].
-    assert (PI : passes (items st l)).
-    { apply passes_items. apply Forall_forall. intros x I. apply maker_doc.
+    intro R. rewrite print_arr. cbn [app]. rewrite <- app_assoc. cbn [app].
+    assert (PB : passes (arr_body st d l)).
+    { apply passes_arr_body. apply Forall_forall. intros x I. apply maker_doc.
       cbn [restricted] in R. rewrite forallb_forall in R. apply R; exact I. }
-    assert (PB : passes (s_open st ++ items st l ++ s_close st)).
-    { apply passes_app; [apply passes_ws; exact Wo|]. apply passes_app; [exact PI|apply passes_ws; exact Wc]. }
-    replace ((s_open st ++ items st l ++ s_close st ++ [93]) ++ rest)
-      with ((s_open st ++ items st l ++ s_close st) ++ 93 :: rest)
-      by (rewrite <- !app_assoc; reflexivity).
     destruct (PB (93 :: rest) 1%nat ltac:(lia)) as [E|E]; [left; exact E|].
     right. rewrite E. reflexivity.
   Qed.
 End Maker.
 
 (* ------------------------------------------------------------ parseArray / parseObject *)
-Definition plain_char (c : N) : bool := negb (is_term c) && negb (c =? 47).
-
-Lemma bare_rest_plain tok rest : forallb plain_char tok = true ->
-  match rest with c :: _ => is_term c = true | [] => True end ->
-  bare_rest (tok ++ rest) = (tok, rest).
-Proof.
-  intros H T. induction tok as [|c tok IH].
-  - destruct rest as [|c r]; [reflexivity|]. cbn [app bare_rest]. rewrite T. reflexivity.
-  - cbn [forallb] in H. apply andb_true_iff in H as [H1 H2]. unfold plain_char in H1.
-    apply andb_true_iff in H1 as [T1 S]. apply negb_true_iff in T1, S.
-    cbn [app bare_rest]. rewrite T1, S. cbn [andb]. rewrite (IH H2). reflexivity.
-Qed.
-
-Lemma num_plain tok : forallb num_char tok = true -> forallb plain_char tok = true.
-Proof.
-  intro H. apply forallb_forall. intros c I. rewrite forallb_forall in H. specialize (H c I).
-  destruct (num_char_plain c H) as (_ & _ & _ & _ & _ & _ & T1 & S & _). unfold plain_char. rewrite T1, S. reflexivity.
-Qed.
-
-Definition term_start (rest : bytes) : Prop := match rest with c :: _ => is_term c = true | [] => False end.
-
-Lemma term_start_weak rest : term_start rest -> match rest with c :: _ => is_term c = true | [] => True end.
-Proof. destruct rest; [contradiction|auto]. Qed.
-
-Lemma term_start_ws w c rest : ws_ok w = true -> is_term c = true -> term_start (w ++ c :: rest).
-Proof.
-  intros H T. destruct w as [|d w]; [exact T|].
-  unfold ws_ok in H. cbn [forallb] in H. apply andb_true_iff in H as [H _].
-  cbn [app term_start]. unfold is_term, mem in *. cbn [existsb] in *. lia.
-Qed.
-
 Lemma p_array_step f acc c r : p_array (S f) acc (c :: r) =
   if mem c [44; 32; 9; 13; 10] then p_array f acc r
   else if c =? 93 then Ok (JArr (rev acc), r)
@@ -345,32 +360,36 @@ Proof. reflexivity. Qed.
 
 Definition set_val (st : ostate) (v : json) : ostate :=
   {| os_key := os_key st; os_val := Some v; os_stage := true; os_obj := os_obj st |}.
+Definition fresh (o : list (bytes * json)) : ostate :=
+  {| os_key := None; os_val := None; os_stage := false; os_obj := o |}.
+Definition full (k : bytes) (v : json) (o : list (bytes * json)) : ostate :=
+  {| os_key := Some (JStr k); os_val := Some v; os_stage := true; os_obj := o |}.
 
 Lemma os_update_val st v : os_stage st = true -> os_val st = None -> os_update st v = Ok (set_val st v).
 Proof. intros S V. unfold os_update. rewrite S, V. reflexivity. Qed.
 
-(* one element of an array / one member value of an object, followed by a
-   terminator, is consumed and recorded *)
-Definition elem_ok (st : style) (j : json) : Prop := forall f acc rest,
-  (length (print st j ++ rest) < f)%nat -> term_start rest ->
-  exists f', (length rest < f')%nat /\ p_array f acc (print st j ++ rest) = p_array f' (canon j :: acc) rest.
+Definition elem_ok (st : style) (d : nat) (j : json) : Prop := forall f acc rest,
+  (length (print st d j ++ rest) < f)%nat -> delim_start rest ->
+  exists f', (length rest < f')%nat /\ p_array f acc (print st d j ++ rest) = p_array f' (canon j :: acc) rest.
 
-Definition val_ok (st : style) (j : json) : Prop := forall f os rest,
+Definition val_ok (st : style) (d : nat) (j : json) : Prop := forall f os rest,
   os_stage os = true -> os_val os = None ->
-  (length (print st j ++ rest) < f)%nat -> term_start rest ->
-  exists f', (length rest < f')%nat /\ p_object f os (print st j ++ rest) = p_object f' (set_val os (canon j)) rest.
+  (length (print st d j ++ rest) < f)%nat -> delim_start rest ->
+  exists f', (length rest < f')%nat /\ p_object f os (print st d j ++ rest) = p_object f' (set_val os (canon j)) rest.
 
-Lemma p_array_ws w : ws_ok w = true -> forall f acc tail, (length (w ++ tail) < f)%nat ->
+(* the array loop skips white space of either kind *)
+Lemma p_array_ws w : wsn_ok w = true -> forall f acc tail, (length (w ++ tail) < f)%nat ->
   exists f', (length tail < f')%nat /\ p_array f acc (w ++ tail) = p_array f' acc tail.
 Proof.
   induction w as [|c w IH]; intros H f acc tail L.
   - exists f. split; [exact L|reflexivity].
-  - unfold ws_ok in H. cbn [forallb] in H. apply andb_true_iff in H as [H1 H2].
+  - unfold wsn_ok in H. cbn [forallb] in H. apply andb_true_iff in H as [H1 H2].
     destruct f as [|f]; [cbn in L; lia|]. cbn [app]. rewrite p_array_step.
-    assert (mem c [44; 32; 9; 13; 10] = true) as -> by (unfold mem in *; cbn [existsb] in *; lia).
+    destruct (wsn_char c H1) as (E & _). rewrite E.
     apply IH; [exact H2|]. cbn [app length] in L. lia.
 Qed.
 
+(* the object loop skips inline white space in any state ... *)
 Lemma p_object_ws w : ws_ok w = true -> forall f os tail, (length (w ++ tail) < f)%nat ->
   exists f', (length tail < f')%nat /\ p_object f os (w ++ tail) = p_object f' os tail.
 Proof.
@@ -381,19 +400,59 @@ Proof.
     apply IH; [exact H2|]. cbn [app length] in L. lia.
 Qed.
 
+(* ... and line breaks where no member is pending: a newline ends the (empty) pair *)
+Lemma p_object_wsn_fresh w : wsn_ok w = true -> forall f o tail, (length (w ++ tail) < f)%nat ->
+  exists f', (length tail < f')%nat /\ p_object f (fresh o) (w ++ tail) = p_object f' (fresh o) tail.
+Proof.
+  induction w as [|c w IH]; intros H f o tail L.
+  - exists f. split; [exact L|reflexivity].
+  - unfold wsn_ok in H. cbn [forallb] in H. apply andb_true_iff in H as [H1 H2].
+    destruct f as [|f]; [cbn in L; lia|]. cbn [app]. rewrite p_object_step.
+    assert (L' : (length (w ++ tail) < f)%nat) by (cbn [app length] in L; lia).
+    destruct (mem c [32; 9; 13]) eqn:E; [apply IH; assumption|].
+    assert (c = 10) as -> by (unfold mem in *; cbn [existsb] in *; lia).
+    cbn [N.eqb Pos.eqb orb]. cbn [os_write fresh os_key os_val obind]. apply IH; assumption.
+Qed.
+
+Lemma os_write_full k v o : os_write (full k v o) = Ok (fresh (obj_set k v o)).
+Proof. reflexivity. Qed.
+Lemma os_write_fresh o : os_write (fresh o) = Ok (fresh o).
+Proof. reflexivity. Qed.
+
+(* closing an object: white space (line breaks included) and `}` after the last
+   member, or after nothing *)
+Lemma p_object_close w : wsn_ok w = true -> forall f os o' rest,
+  (os = fresh o' \/ exists k v o, os = full k v o /\ o' = obj_set k v o) ->
+  (length (w ++ 125%N :: rest) < f)%nat ->
+  p_object f os (w ++ 125 :: rest) = Ok (JObj o', rest).
+Proof.
+  induction w as [|c w IH]; intros H f os o' rest C L.
+  - destruct f as [|f]; [cbn in L; lia|]. cbn [app]. rewrite p_object_step. cbn [mem existsb N.eqb Pos.eqb orb].
+    destruct C as [->|(k & v & o & -> & ->)]; [rewrite os_write_fresh|rewrite os_write_full]; reflexivity.
+  - unfold wsn_ok in H. cbn [forallb] in H. apply andb_true_iff in H as [H1 H2].
+    destruct f as [|f]; [cbn in L; lia|]. cbn [app]. rewrite p_object_step.
+    assert (L' : (length (w ++ 125%N :: rest) < f)%nat) by (cbn [app length] in L; lia).
+    destruct (mem c [32; 9; 13]) eqn:E; [apply IH; assumption|].
+    assert (c = 10) as -> by (unfold mem in *; cbn [existsb] in *; lia).
+    cbn [N.eqb Pos.eqb orb].
+    destruct C as [->|(k & v & o & -> & ->)].
+    + rewrite os_write_fresh. cbn [obind]. apply IH; [exact H2|left; reflexivity|exact L'].
+    + rewrite os_write_full. cbn [obind]. apply IH; [exact H2|left; reflexivity|exact L'].
+Qed.
+
 Lemma bareword_atom (tok : bytes) (v : json) c t f acc rest :
   tok = c :: t -> forallb plain_char tok = true ->
   mem c [44; 32; 9; 13; 10] = false -> (c =? 93) = false -> (c =? 34) = false -> (c =? 91) = false ->
   (c =? 123) = false -> unmodelled c = false ->
   bareword_value tok = v ->
-  (length (tok ++ rest) < f)%nat -> term_start rest ->
+  (length (tok ++ rest) < f)%nat -> delim_start rest ->
   exists f', (length rest < f')%nat /\ p_array f acc (tok ++ rest) = p_array f' (v :: acc) rest.
 Proof.
   intros -> P E1 E2 E3 E4 E5 E6 V L T.
   destruct f as [|f]; [cbn in L; lia|]. exists f. split; [cbn [app length] in L; rewrite app_length in L; lia|].
   cbn [app]. rewrite p_array_step, E1, E2, E3, E4, E5, E6.
   cbn [forallb] in P. apply andb_true_iff in P as [_ P].
-  rewrite (bare_rest_plain t rest P (term_start_weak rest T)). rewrite V. reflexivity.
+  rewrite (bare_rest_plain t rest P (delim_term rest T)). rewrite V. reflexivity.
 Qed.
 
 Lemma bareword_atom_obj (tok : bytes) (v : json) c t f os rest :
@@ -401,156 +460,150 @@ Lemma bareword_atom_obj (tok : bytes) (v : json) c t f os rest :
   mem c [32; 9; 13] = false -> ((c =? 44) || (c =? 10)) = false -> (c =? 125) = false -> (c =? 58) = false ->
   (c =? 34) = false -> (c =? 91) = false -> (c =? 123) = false -> unmodelled c = false ->
   bareword_value tok = v -> os_stage os = true -> os_val os = None ->
-  (length (tok ++ rest) < f)%nat -> term_start rest ->
+  (length (tok ++ rest) < f)%nat -> delim_start rest ->
   exists f', (length rest < f')%nat /\ p_object f os (tok ++ rest) = p_object f' (set_val os v) rest.
 Proof.
   intros -> P E1 E2 E3 E4 E5 E6 E7 E8 V S1 S2 L T.
   destruct f as [|f]; [cbn in L; lia|]. exists f. split; [cbn [app length] in L; rewrite app_length in L; lia|].
   cbn [app]. rewrite p_object_step, E1, E2, E3, E4, E5, E6, E7, E8.
   cbn [forallb] in P. apply andb_true_iff in P as [_ P].
-  rewrite (bare_rest_plain t rest P (term_start_weak rest T)). rewrite V, (os_update_val os v S1 S2). reflexivity.
+  rewrite (bare_rest_plain t rest P (delim_term rest T)). rewrite V, (os_update_val os v S1 S2). reflexivity.
 Qed.
 
 Lemma num_char_obj c : num_char c = true ->
   mem c [32; 9; 13] = false /\ ((c =? 44) || (c =? 10)) = false /\ (c =? 125) = false /\ (c =? 58) = false.
 Proof. unfold num_char, is_digit, mem. cbn [existsb]. lia. Qed.
 
+Lemma nofire_branch {A} (r : mk_res) (x : Outcome A) :
+  (r = MkEarly \/ r = MkEnd false) ->
+  match r with MkMissing => Err 1 | MkEnd true => Err 8 | _ => x end = x.
+Proof. intros [->| ->]; reflexivity. Qed.
+
+Ltac norm_app := repeat progress (rewrite <- ?app_assoc in *; cbn [app] in *).
+Ltac len_lia := repeat progress (rewrite ?app_length in *; cbn [length] in *); lia.
+
 Section Docs.
   Variable st : style.
-  Hypothesis ST : style_ok st = true.
+  Hypothesis ST : style_ok st.
 
-  Lemma items_ok l : Forall (elem_ok st) l -> forall f acc tail,
-    (length (items st l ++ tail) < f)%nat -> term_start tail ->
+  Lemma items_ok d l : Forall (elem_ok st (S d)) l -> forall f acc tail,
+    (length (items st d l ++ tail) < f)%nat -> delim_start tail ->
     exists f', (length tail < f')%nat /\
-      p_array f acc (items st l ++ tail) = p_array f' (rev (map canon l) ++ acc) tail.
+      p_array f acc (items st d l ++ tail) = p_array f' (rev (map canon l) ++ acc) tail.
   Proof.
-    destruct (ws_parts st ST) as (_ & Wcb & Wca & _).
+    destruct (ST d) as (_ & Wcb & Wca & _).
     induction 1 as [|x l Hx Hl IH]; intros f acc tail L T.
     - exists f. split; [exact L|reflexivity].
     - destruct l as [|y l'].
-      + cbn [items map rev app]. apply Hx; assumption.
-      + change (items st (x :: y :: l')) with (print st x ++ s_cb st ++ 44 :: s_ca st ++ items st (y :: l')) in *.
-        rewrite <- !app_assoc in *. cbn [app] in *. rewrite <- ?app_assoc in *.
-        destruct (Hx f acc (s_cb st ++ 44 :: s_ca st ++ items st (y :: l') ++ tail) L) as (f1 & L1 & E1).
-        { apply term_start_ws; [exact Wcb|reflexivity]. }
+      + change (items st d [x]) with (print st (S d) x) in *. cbn [map rev app]. apply Hx; assumption.
+      + change (items st d (x :: y :: l')) with (print st (S d) x ++ s_cb st d ++ 44 :: s_ca st d ++ items st d (y :: l')) in *.
+        norm_app.
+        destruct (Hx f acc (s_cb st d ++ 44 :: s_ca st d ++ items st d (y :: l') ++ tail) L) as (f1 & L1 & E1).
+        { apply delim_start_ws; [apply ws_wsn; exact Wcb|reflexivity]. }
         rewrite E1.
-        destruct (p_array_ws (s_cb st) Wcb f1 (canon x :: acc) _ L1) as (f2 & L2 & E2). rewrite E2.
+        destruct (p_array_ws (s_cb st d) (ws_wsn _ Wcb) f1 (canon x :: acc) _ L1) as (f2 & L2 & E2). rewrite E2.
         destruct f2 as [|f2]; [cbn in L2; lia|]. rewrite p_array_step. cbn [mem existsb N.eqb Pos.eqb orb].
-        assert (L3 : (length (s_ca st ++ items st (y :: l') ++ tail) < f2)%nat) by (cbn [length] in L2; lia).
-        destruct (p_array_ws (s_ca st) Wca f2 (canon x :: acc) _ L3) as (f3 & L4 & E3). rewrite E3.
+        assert (L3 : (length (s_ca st d ++ items st d (y :: l') ++ tail) < f2)%nat) by (cbn [length] in L2; lia).
+        destruct (p_array_ws (s_ca st d) Wca f2 (canon x :: acc) _ L3) as (f3 & L4 & E3). rewrite E3.
         destruct (IH f3 (canon x :: acc) tail L4 T) as (f4 & L5 & E4). rewrite E4.
         exists f4. split; [exact L5|]. f_equal. cbn [map rev]. rewrite <- !app_assoc. reflexivity.
   Qed.
 
   (* the inside of an array, after its opening bracket *)
-  Lemma inner_arr l : Forall (elem_ok st) l -> forall f rest,
-    (length (s_open st ++ items st l ++ s_close st ++ 93%N :: rest) < f)%nat ->
-    p_array f [] (s_open st ++ items st l ++ s_close st ++ 93 :: rest) = Ok (JArr (map canon l), rest).
+  Lemma inner_arr d l : Forall (elem_ok st (S d)) l -> forall f rest,
+    (length (arr_body st d l ++ 93%N :: rest) < f)%nat ->
+    p_array f [] (arr_body st d l ++ 93 :: rest) = Ok (JArr (map canon l), rest).
   Proof.
-    destruct (ws_parts st ST) as (Wo & _ & _ & _ & _ & Wc). intros EL f rest LB.
-    destruct (p_array_ws (s_open st) Wo f [] _ LB) as (f1 & L1 & E1). rewrite E1.
-    destruct (items_ok l EL f1 [] (s_close st ++ 93 :: rest) L1) as (f2 & L2 & E2).
-    { apply term_start_ws; [exact Wc|reflexivity]. }
-    rewrite E2.
-    destruct (p_array_ws (s_close st) Wc f2 (rev (map canon l) ++ []) _ L2) as (f3 & L3 & E3). rewrite E3.
-    destruct f3 as [|f3]; [cbn in L3; lia|]. rewrite p_array_step. cbn [mem existsb N.eqb Pos.eqb orb].
-    rewrite app_nil_r, rev_involutive. reflexivity.
+    destruct (ST d) as (Wo & _ & _ & _ & _ & Wc & We). intros EL f rest LB. unfold arr_body in *.
+    destruct l as [|x l'].
+    - destruct (p_array_ws (s_empty st d) We f [] _ LB) as (f1 & L1 & E1). rewrite E1.
+      destruct f1 as [|f1]; [cbn in L1; lia|]. rewrite p_array_step. reflexivity.
+    - norm_app.
+      destruct (p_array_ws (s_open st d) Wo f [] _ LB) as (f1 & L1 & E1). rewrite E1.
+      destruct (items_ok d (x :: l') EL f1 [] (s_close st d ++ 93 :: rest) L1) as (f2 & L2 & E2).
+      { apply delim_start_ws; [exact Wc|reflexivity]. }
+      rewrite E2.
+      destruct (p_array_ws (s_close st d) Wc f2 (rev (map canon (x :: l')) ++ []) _ L2) as (f3 & L3 & E3). rewrite E3.
+      destruct f3 as [|f3]; [cbn in L3; lia|]. rewrite p_array_step. cbn [mem existsb N.eqb Pos.eqb orb].
+      rewrite app_nil_r, rev_involutive. reflexivity.
   Qed.
 
-  Definition kv_ok (kv : bytes * json) : Prop := str_ok (fst kv) = true /\ val_ok st (snd kv).
+  Definition kv_ok (d : nat) (kv : bytes * json) : Prop := str_ok (fst kv) = true /\ val_ok st (S d) (snd kv).
   Definition fold_obj (kvs : list (bytes * json)) (o : list (bytes * json)) :=
     fold_left (fun o kv => obj_set (fst kv) (canon (snd kv)) o) kvs o.
-  Definition fresh (o : list (bytes * json)) : ostate :=
-    {| os_key := None; os_val := None; os_stage := false; os_obj := o |}.
 
   (* one member  "key" : value  from a fresh state *)
-  Lemma pair_ok kv : kv_ok kv -> forall f o rest,
-    (length (pair st kv ++ rest) < f)%nat -> term_start rest ->
+  Lemma pair_ok d kv : kv_ok d kv -> forall f o rest,
+    (length (pair st d kv ++ rest) < f)%nat -> delim_start rest ->
     exists f', (length rest < f')%nat /\
-      p_object f (fresh o) (pair st kv ++ rest) =
-      p_object f' {| os_key := Some (JStr (fst kv)); os_val := Some (canon (snd kv)); os_stage := true; os_obj := o |} rest.
+      p_object f (fresh o) (pair st d kv ++ rest) = p_object f' (full (fst kv) (canon (snd kv)) o) rest.
   Proof.
-    destruct (ws_parts st ST) as (_ & _ & _ & Wcolb & Wcola & _).
+    destruct (ST d) as (_ & _ & _ & Wcolb & Wcola & _).
     intros [K V] f o rest L T. destruct kv as [k v]. cbn [fst snd] in *.
-    unfold pair in *. cbn [fst snd app] in *.
-    repeat progress (rewrite <- ?app_assoc in *; cbn [app] in *).
+    unfold pair in *. cbn [fst snd app] in *. norm_app.
     destruct f as [|f]; [cbn in L; lia|]. rewrite p_object_step. cbn [mem existsb N.eqb Pos.eqb orb].
     rewrite (p_string_ok k [] _ K). cbn [obind rev app os_update fresh os_stage os_key].
-    assert (L1 : (length (s_colb st ++ 58%N :: s_cola st ++ print st v ++ rest) < f)%nat).
+    assert (L1 : (length (s_colb st d ++ 58%N :: s_cola st d ++ print st (S d) v ++ rest) < f)%nat).
     { cbn [length] in L. rewrite app_length in L. cbn [length] in L. lia. }
-    match goal with |- context [p_object f ?os0 (s_colb st ++ ?tl0)] =>
-        destruct (p_object_ws (s_colb st) Wcolb f os0 tl0 L1) as (f2 & L2 & E2) end. rewrite E2.
+    match goal with |- context [p_object f ?os0 (s_colb st d ++ ?tl0)] =>
+      destruct (p_object_ws (s_colb st d) Wcolb f os0 tl0 L1) as (f2 & L2 & E2) end. rewrite E2.
     destruct f2 as [|f2]; [cbn in L2; lia|]. rewrite p_object_step. cbn [mem existsb N.eqb Pos.eqb orb os_stage].
-    assert (L3 : (length (s_cola st ++ print st v ++ rest) < f2)%nat) by (cbn [length] in L2; lia).
-    match goal with |- context [p_object f2 ?os0 (s_cola st ++ ?tl0)] =>
-        destruct (p_object_ws (s_cola st) Wcola f2 os0 tl0 L3) as (f3 & L4 & E3) end. rewrite E3.
+    assert (L3 : (length (s_cola st d ++ print st (S d) v ++ rest) < f2)%nat) by (cbn [length] in L2; lia).
+    match goal with |- context [p_object f2 ?os0 (s_cola st d ++ ?tl0)] =>
+      destruct (p_object_ws (s_cola st d) Wcola f2 os0 tl0 L3) as (f3 & L4 & E3) end. rewrite E3.
     cbn [os_key os_val os_stage os_obj fresh].
-    match goal with |- context [p_object f3 ?os0 (print st v ++ rest)] =>
+    match goal with |- context [p_object f3 ?os0 (print st (S d) v ++ rest)] =>
       destruct (V f3 os0 rest eq_refl eq_refl L4 T) as (f4 & L5 & E4) end. rewrite E4.
     exists f4. split; [exact L5|reflexivity].
   Qed.
 
-  Lemma os_write_full k v o :
-    os_write {| os_key := Some (JStr k); os_val := Some v; os_stage := true; os_obj := o |} = Ok (fresh (obj_set k v o)).
-  Proof. reflexivity. Qed.
-
-  Lemma pairs_ok kvs : Forall kv_ok kvs -> kvs <> [] -> forall f o tail,
-    (length (pairs st kvs ++ tail) < f)%nat -> term_start tail ->
+  Lemma pairs_ok d kvs : Forall (kv_ok d) kvs -> kvs <> [] -> forall f o tail,
+    (length (pairs st d kvs ++ tail) < f)%nat -> delim_start tail ->
     exists f' k v o', (length tail < f')%nat /\
-      p_object f (fresh o) (pairs st kvs ++ tail) =
-      p_object f' {| os_key := Some (JStr k); os_val := Some v; os_stage := true; os_obj := o' |} tail /\
+      p_object f (fresh o) (pairs st d kvs ++ tail) = p_object f' (full k v o') tail /\
       obj_set k v o' = fold_obj kvs o.
   Proof.
-    destruct (ws_parts st ST) as (_ & Wcb & Wca & _).
+    destruct (ST d) as (_ & Wcb & Wca & _).
     induction 1 as [|kv l Hkv Hl IH]; intros NE f o tail L T; [congruence|].
     destruct l as [|kv2 l'].
-    - cbn [pairs] in *. destruct (pair_ok kv Hkv f o tail L T) as (f1 & L1 & E1).
+    - change (pairs st d [kv]) with (pair st d kv) in *.
+      destruct (pair_ok d kv Hkv f o tail L T) as (f1 & L1 & E1).
       exists f1, (fst kv), (canon (snd kv)), o. split; [exact L1|]. split; [exact E1|reflexivity].
-    - change (pairs st (kv :: kv2 :: l')) with (pair st kv ++ s_cb st ++ 44 :: s_ca st ++ pairs st (kv2 :: l')) in *.
-      repeat progress (rewrite <- ?app_assoc in *; cbn [app] in *).
-      destruct (pair_ok kv Hkv f o (s_cb st ++ 44 :: s_ca st ++ pairs st (kv2 :: l') ++ tail) L) as (f1 & L1 & E1).
-      { apply term_start_ws; [exact Wcb|reflexivity]. }
+    - change (pairs st d (kv :: kv2 :: l')) with (pair st d kv ++ s_cb st d ++ 44 :: s_ca st d ++ pairs st d (kv2 :: l')) in *.
+      norm_app.
+      destruct (pair_ok d kv Hkv f o (s_cb st d ++ 44 :: s_ca st d ++ pairs st d (kv2 :: l') ++ tail) L) as (f1 & L1 & E1).
+      { apply delim_start_ws; [apply ws_wsn; exact Wcb|reflexivity]. }
       rewrite E1.
-      match goal with |- context [p_object f1 ?os0 (s_cb st ++ ?tl0)] =>
-        destruct (p_object_ws (s_cb st) Wcb f1 os0 tl0 L1) as (f2 & L2 & E2) end. rewrite E2.
+      destruct (p_object_ws (s_cb st d) Wcb f1 (full (fst kv) (canon (snd kv)) o) _ L1) as (f2 & L2 & E2). rewrite E2.
       destruct f2 as [|f2]; [cbn in L2; lia|]. rewrite p_object_step. cbn [mem existsb N.eqb Pos.eqb orb].
       rewrite os_write_full. cbn [obind].
-      assert (L3 : (length (s_ca st ++ pairs st (kv2 :: l') ++ tail) < f2)%nat) by (cbn [length] in L2; lia).
-      match goal with |- context [p_object f2 ?os0 (s_ca st ++ ?tl0)] =>
-        destruct (p_object_ws (s_ca st) Wca f2 os0 tl0 L3) as (f3 & L4 & E3) end. rewrite E3.
+      assert (L3 : (length (s_ca st d ++ pairs st d (kv2 :: l') ++ tail) < f2)%nat) by (cbn [length] in L2; lia).
+      destruct (p_object_wsn_fresh (s_ca st d) Wca f2 (obj_set (fst kv) (canon (snd kv)) o) _ L3) as (f3 & L4 & E3). rewrite E3.
       destruct (IH ltac:(discriminate) f3 (obj_set (fst kv) (canon (snd kv)) o) tail L4 T) as (f4 & k & v & o' & L5 & E4 & F).
       rewrite E4. exists f4, k, v, o'. split; [exact L5|]. split; [reflexivity|exact F].
   Qed.
 
   (* the inside of an object, after its opening brace *)
-  Lemma inner_obj kvs : Forall kv_ok kvs -> forall f rest,
-    (length (s_open st ++ pairs st kvs ++ s_close st ++ 125%N :: rest) < f)%nat ->
-    p_object f os_empty (s_open st ++ pairs st kvs ++ s_close st ++ 125 :: rest) = Ok (JObj (fold_obj kvs []), rest).
+  Lemma inner_obj d kvs : Forall (kv_ok d) kvs -> forall f rest,
+    (length (obj_body st d kvs ++ 125%N :: rest) < f)%nat ->
+    p_object f os_empty (obj_body st d kvs ++ 125 :: rest) = Ok (JObj (fold_obj kvs []), rest).
   Proof.
-    destruct (ws_parts st ST) as (Wo & _ & _ & _ & _ & Wc). intros KV f rest LB.
-    destruct (p_object_ws (s_open st) Wo f os_empty _ LB) as (f1 & L1 & E1). rewrite E1.
+    destruct (ST d) as (Wo & _ & _ & _ & _ & Wc & We). intros KV f rest LB. unfold obj_body in *.
+    change os_empty with (fresh []).
     destruct kvs as [|kv kvs'].
-    - cbn [pairs app] in *.
-      destruct (p_object_ws (s_close st) Wc f1 os_empty _ L1) as (f2 & L2 & E2). rewrite E2.
-      destruct f2 as [|f2]; [cbn in L2; lia|]. rewrite p_object_step. reflexivity.
-    - destruct (pairs_ok (kv :: kvs') KV ltac:(discriminate) f1 [] (s_close st ++ 125 :: rest) L1)
+    - apply p_object_close; [exact We|left; reflexivity|exact LB].
+    - norm_app.
+      destruct (p_object_wsn_fresh (s_open st d) Wo f [] _ LB) as (f1 & L1 & E1). rewrite E1.
+      destruct (pairs_ok d (kv :: kvs') KV ltac:(discriminate) f1 [] (s_close st d ++ 125 :: rest) L1)
         as (f2 & k & v & o' & L2 & E2 & F).
-      { apply term_start_ws; [exact Wc|reflexivity]. }
-      change os_empty with (fresh []). rewrite E2.
-      match goal with |- context [p_object f2 ?os0 (s_close st ++ ?tl0)] =>
-        destruct (p_object_ws (s_close st) Wc f2 os0 tl0 L2) as (f3 & L3 & E3) end. rewrite E3.
-      destruct f3 as [|f3]; [cbn in L3; lia|]. rewrite p_object_step. cbn [mem existsb N.eqb Pos.eqb orb].
-      rewrite os_write_full. cbn [obind fresh os_obj]. rewrite F. reflexivity.
+      { apply delim_start_ws; [exact Wc|reflexivity]. }
+      rewrite E2. rewrite <- F.
+      apply p_object_close; [exact Wc|right; exists k, v, o'; split; reflexivity|exact L2].
   Qed.
 
-  Lemma nofire_branch {A} (r : mk_res) (x : Outcome A) :
-    (r = MkEarly \/ r = MkEnd false) ->
-    match r with MkMissing => Err 1 | MkEnd true => Err 8 | _ => x end = x.
-  Proof. intros [->| ->]; reflexivity. Qed.
-
-  Lemma both j : restricted j = true -> elem_ok st j /\ val_ok st j.
+  Lemma both j : forall d, restricted j = true -> elem_ok st d j /\ val_ok st d j.
   Proof.
-    induction j as [|b0|tok|s|l IH|kvs IH] using json_ind'; intros R; cbn [restricted] in R.
+    induction j as [|b0|tok|s|l IH|kvs IH] using json_ind'; intros d R; cbn [restricted] in R.
     - split.
       + intros f acc rest L T. eapply (bareword_atom [110; 117; 108; 108] JNull); try reflexivity; assumption.
       + intros f os rest S1 S2 L T. eapply (bareword_atom_obj [110; 117; 108; 108] JNull); try reflexivity; assumption.
@@ -562,21 +615,20 @@ Section Docs.
         * eapply (bareword_atom_obj [116; 114; 117; 101] (JBool true)); try reflexivity; assumption.
         * eapply (bareword_atom_obj [102; 97; 108; 115; 101] (JBool false)); try reflexivity; assumption.
     - (* number *)
-      pose proof R as R0. unfold num_ok in R. repeat (apply andb_true_iff in R as [R ?]).
-      destruct tok as [|c t]; [discriminate|].
-      match goal with H : forallb num_char (c :: t) = true |- _ => pose proof H as NC; cbn [forallb] in H;
-        apply andb_true_iff in H as [Hc _] end.
+      destruct (num_ok_parts tok R) as (_ & NE & NC & _).
+      destruct tok as [|c t]; [congruence|].
+      pose proof NC as NC'. cbn [forallb] in NC'. apply andb_true_iff in NC' as [Hc _].
       destruct (num_char_plain c Hc) as (E1 & E2 & E3 & E4 & E5 & E6 & _).
       destruct (num_char_obj c Hc) as (O1 & O2 & O3 & O4).
       split.
       + intros f acc rest L T.
         eapply (bareword_atom (c :: t) (JNum (c :: t))); try reflexivity; try assumption.
         * apply num_plain; exact NC.
-        * apply bareword_num; exact R0.
+        * apply bareword_num; exact R.
       + intros f os rest S1 S2 L T.
         eapply (bareword_atom_obj (c :: t) (JNum (c :: t))); try reflexivity; try assumption.
         * apply num_plain; exact NC.
-        * apply bareword_num; exact R0.
+        * apply bareword_num; exact R.
     - (* string *)
       split.
       + intros f acc rest L T. cbn [print app canon] in *. destruct f as [|f]; [cbn in L; lia|].
@@ -590,65 +642,404 @@ Section Docs.
         exists f. split; [|reflexivity]. cbn [length] in L. rewrite !app_length in L. cbn [length] in L. lia.
     - (* array *)
       assert (RA : restricted (JArr l) = true) by exact R.
-      assert (EL : Forall (elem_ok st) l).
+      assert (EL : Forall (elem_ok st (S d)) l).
       { rewrite Forall_forall in IH |- *. intros x I. apply IH; [exact I|]. rewrite forallb_forall in R. apply R; exact I. }
-      assert (BODY : forall rest, (s_open st ++ items st l ++ s_close st ++ [93]) ++ rest
-                                  = s_open st ++ items st l ++ s_close st ++ 93 :: rest)
-        by (intro rest; rewrite <- !app_assoc; reflexivity).
       split.
-      + intros f acc rest L T. pose proof (arraymaker_never_fires st ST l rest RA) as MK.
-        rewrite print_arr in *. cbn [app canon] in *. rewrite BODY in *.
+      + intros f acc rest L T. pose proof (arraymaker_never_fires st ST d l rest RA) as MK.
+        rewrite print_arr in *. cbn [app canon] in *. rewrite <- app_assoc in *. cbn [app] in *.
         destruct f as [|f]; [cbn in L; lia|]. rewrite p_array_step. cbn [mem existsb N.eqb Pos.eqb orb].
         rewrite (nofire_branch _ _ MK).
-        rewrite (inner_arr l EL f rest) by (cbn [length] in L; lia). cbn [obind].
+        rewrite (inner_arr d l EL f rest) by (cbn [length] in L; lia). cbn [obind].
         exists f. split; [|reflexivity]. cbn [length] in L. rewrite !app_length in L. cbn [length] in L. lia.
-      + intros f os rest S1 S2 L T. pose proof (arraymaker_never_fires st ST l rest RA) as MK.
-        rewrite print_arr in *. cbn [app canon] in *. rewrite BODY in *.
+      + intros f os rest S1 S2 L T. pose proof (arraymaker_never_fires st ST d l rest RA) as MK.
+        rewrite print_arr in *. cbn [app canon] in *. rewrite <- app_assoc in *. cbn [app] in *.
         destruct f as [|f]; [cbn in L; lia|]. rewrite p_object_step. cbn [mem existsb N.eqb Pos.eqb orb].
         rewrite S1. cbn [negb]. rewrite (nofire_branch _ _ MK).
-        rewrite (inner_arr l EL f rest) by (cbn [length] in L; lia). cbn [obind].
+        rewrite (inner_arr d l EL f rest) by (cbn [length] in L; lia). cbn [obind].
         rewrite (os_update_val os _ S1 S2). cbn [obind].
         exists f. split; [|reflexivity]. cbn [length] in L. rewrite !app_length in L. cbn [length] in L. lia.
     - (* object *)
-      assert (KV : Forall kv_ok kvs).
+      assert (KV : Forall (kv_ok d) kvs).
       { rewrite Forall_forall in IH |- *. intros kv I. rewrite forallb_forall in R. specialize (R kv I).
         apply andb_true_iff in R as [K V]. split; [exact K|]. apply IH; assumption. }
-      assert (BODY : forall rest, (s_open st ++ pairs st kvs ++ s_close st ++ [125]) ++ rest
-                                  = s_open st ++ pairs st kvs ++ s_close st ++ 125 :: rest)
-        by (intro rest; rewrite <- !app_assoc; reflexivity).
       split.
-      + intros f acc rest L T. rewrite print_obj in *. cbn [app] in *. rewrite BODY in *.
+      + intros f acc rest L T. rewrite print_obj in *. cbn [app] in *. rewrite <- app_assoc in *. cbn [app] in *.
         destruct f as [|f]; [cbn in L; lia|]. rewrite p_array_step. cbn [mem existsb N.eqb Pos.eqb orb].
-        rewrite (inner_obj kvs KV f rest) by (cbn [length] in L; lia). cbn [obind].
+        rewrite (inner_obj d kvs KV f rest) by (cbn [length] in L; lia). cbn [obind].
         exists f. split; [|reflexivity]. cbn [length] in L. rewrite !app_length in L. cbn [length] in L. lia.
-      + intros f os rest S1 S2 L T. rewrite print_obj in *. cbn [app] in *. rewrite BODY in *.
+      + intros f os rest S1 S2 L T. rewrite print_obj in *. cbn [app] in *. rewrite <- app_assoc in *. cbn [app] in *.
         destruct f as [|f]; [cbn in L; lia|]. rewrite p_object_step. cbn [mem existsb N.eqb Pos.eqb orb].
         rewrite S1. cbn [negb].
-        rewrite (inner_obj kvs KV f rest) by (cbn [length] in L; lia). cbn [obind].
+        rewrite (inner_obj d kvs KV f rest) by (cbn [length] in L; lia). cbn [obind].
         rewrite (os_update_val os _ S1 S2). cbn [obind].
         exists f. split; [|reflexivity]. cbn [length] in L. rewrite !app_length in L. cbn [length] in L. lia.
   Qed.
 
-  (* Headline: a literal written as a JSON array or object of the restricted
-     grammar, nested to any depth and in any of the inline spacing variants,
-     evaluates to exactly the value the document denotes. *)
-  Theorem literal_eq_json j : restricted j = true ->
-    match j with JArr _ | JObj _ => True | _ => False end ->
-    lit_parse (37 :: print st j) = Ok (canon j).
+  Definition top (j : json) : Prop := match j with JArr _ | JObj _ => True | _ => False end.
+
+  (* a literal written as a JSON array or object of the restricted grammar, nested
+     to any depth, in any rendering style (single-line or indented over several
+     lines), evaluates to exactly the value the document denotes *)
+  Theorem literal_value j : restricted j = true -> top j ->
+    lit_parse (37 :: print st 0 j) = Ok (canon j).
   Proof.
     intros R TOP. destruct j as [| | | |l|kvs]; try contradiction.
-    - assert (EL : Forall (elem_ok st) l).
+    - assert (EL : Forall (elem_ok st 1) l).
       { apply Forall_forall. intros x I. apply both. cbn [restricted] in R. rewrite forallb_forall in R. apply R; exact I. }
-      pose proof (arraymaker_never_fires st ST l [] R) as MK.
+      pose proof (arraymaker_never_fires st ST 0 l [] R) as MK.
       rewrite print_arr in *. cbn [app] in MK. rewrite app_nil_r in MK.
       unfold lit_parse. rewrite (nofire_branch _ _ MK).
-      replace (s_open st ++ items st l ++ s_close st ++ [93]) with (s_open st ++ items st l ++ s_close st ++ 93 :: []) by reflexivity.
       rewrite inner_arr; [reflexivity|exact EL|lia].
-    - assert (KV : Forall kv_ok kvs).
+    - assert (KV : Forall (kv_ok 0) kvs).
       { apply Forall_forall. intros kv I. cbn [restricted] in R. rewrite forallb_forall in R. specialize (R kv I).
         apply andb_true_iff in R as [K V]. split; [exact K|]. apply both; exact V. }
       rewrite print_obj. unfold lit_parse.
-      replace (s_open st ++ pairs st kvs ++ s_close st ++ [125]) with (s_open st ++ pairs st kvs ++ s_close st ++ 125 :: []) by reflexivity.
       rewrite inner_obj; [reflexivity|exact KV|lia].
   Qed.
 End Docs.
+
+(* ------------------------------------------------------------ the plain JSON parser *)
+Lemma skip_ws_app w tail : wsn_ok w = true -> skip_ws (w ++ tail) = skip_ws tail.
+Proof.
+  induction w as [|c w IH]; intro H; [reflexivity|].
+  unfold wsn_ok in H. cbn [forallb] in H. apply andb_true_iff in H as [H1 H2].
+  cbn [app skip_ws]. assert (mem c [32; 9; 10; 13] = true) as -> by (unfold mem in *; cbn [existsb] in *; lia).
+  apply IH; exact H2.
+Qed.
+
+Lemma skip_ws_head c r : mem c [32; 9; 10; 13] = false -> skip_ws (c :: r) = c :: r.
+Proof. intro H. cbn [skip_ws]. rewrite H. reflexivity. Qed.
+
+Lemma j_string_ok s acc rest : str_ok s = true -> j_string acc (s ++ 34 :: rest) = Ok (rev acc ++ s, rest).
+Proof.
+  revert acc. induction s as [|c s IH]; intros acc H.
+  - cbn. rewrite app_nil_r. reflexivity.
+  - unfold str_ok in H. cbn [forallb] in H. apply andb_true_iff in H as [H1 H2].
+    cbn [app j_string].
+    assert ((c =? 34) = false /\ (c =? 92) = false /\ (c <? 32) = false) as (E1 & E2 & E3)
+      by (unfold mem in *; cbn [existsb] in *; lia).
+    rewrite E1, E2, E3. rewrite (IH (c :: acc) H2). cbn [rev]. rewrite <- app_assoc. reflexivity.
+Qed.
+
+Lemma j_token_ok tok rest : forallb (fun c => negb (j_delim c)) tok = true ->
+  match rest with c :: _ => j_delim c = true | [] => True end ->
+  j_token (tok ++ rest) = (tok, rest).
+Proof.
+  intros H T. induction tok as [|c tok IH].
+  - destruct rest as [|c r]; [reflexivity|]. cbn [app j_token]. rewrite T. reflexivity.
+  - cbn [forallb] in H. apply andb_true_iff in H as [H1 H2]. apply negb_true_iff in H1.
+    cbn [app j_token]. rewrite H1, (IH H2). reflexivity.
+Qed.
+
+Lemma delim_jdelim rest : delim_start rest -> match rest with c :: _ => j_delim c = true | [] => True end.
+Proof. destruct rest as [|c r]; [auto|]. unfold delim_start, j_delim, mem. cbn [existsb]. lia. Qed.
+
+Lemma num_char_json c : num_char c = true ->
+  j_delim c = false /\ mem c [32; 9; 10; 13] = false /\ (c =? 34) = false /\ (c =? 91) = false /\ (c =? 123) = false.
+Proof. unfold num_char, is_digit, j_delim, mem. cbn [existsb]. lia. Qed.
+
+Lemma num_token tok : forallb num_char tok = true -> forallb (fun c => negb (j_delim c)) tok = true.
+Proof.
+  intro H. apply forallb_forall. intros c I. rewrite forallb_forall in H. specialize (H c I).
+  destruct (num_char_json c H) as (E & _). rewrite E. reflexivity.
+Qed.
+
+Lemma j_scalar_num tok : num_ok tok = true -> j_scalar tok = Ok (JNum tok).
+Proof.
+  intro H. destruct (num_ok_parts tok H) as (J & NE & NC & _). unfold j_scalar. rewrite J.
+  destruct tok as [|c t]; [congruence|]. cbn [forallb] in NC. apply andb_true_iff in NC as [Hc _].
+  assert (c <> 110 /\ c <> 116 /\ c <> 102) as (A & B & C) by (unfold num_char, is_digit, mem in Hc; cbn [existsb] in Hc; lia).
+  assert (forall t', bytes_eqb (c :: t) (110 :: t') = false) as E1
+    by (intro t'; cbn [bytes_eqb]; destruct (N.eqb_spec c 110); [congruence|reflexivity]).
+  assert (forall t', bytes_eqb (c :: t) (116 :: t') = false) as E2
+    by (intro t'; cbn [bytes_eqb]; destruct (N.eqb_spec c 116); [congruence|reflexivity]).
+  assert (forall t', bytes_eqb (c :: t) (102 :: t') = false) as E3
+    by (intro t'; cbn [bytes_eqb]; destruct (N.eqb_spec c 102); [congruence|reflexivity]).
+  rewrite E1, E2, E3. reflexivity.
+Qed.
+
+Lemma j_value_step f inp : j_value (S f) inp =
+  match skip_ws inp with
+  | [] => Err 1
+  | c :: r =>
+    if c =? 34 then obind (j_string [] r) (fun '(s, r') => Ok (JStr s, r'))
+    else if c =? 91 then match skip_ws r with 93 :: r' => Ok (JArr [], r') | _ => j_items f [] r end
+    else if c =? 123 then match skip_ws r with 125 :: r' => Ok (JObj [], r') | _ => j_members f [] r end
+    else let '(t, r') := j_token (c :: r) in
+         match t with [] => Err 1 | _ => obind (j_scalar t) (fun v => Ok (v, r')) end
+  end.
+Proof. reflexivity. Qed.
+
+Lemma j_items_step f acc inp : j_items (S f) acc inp =
+  obind (j_value f inp) (fun '(v, r) =>
+    match skip_ws r with
+    | 44 :: r' => j_items f (v :: acc) r'
+    | 93 :: r' => Ok (JArr (rev (v :: acc)), r')
+    | _ => Err 1
+    end).
+Proof. reflexivity. Qed.
+
+Lemma j_members_step f o inp : j_members (S f) o inp =
+  match skip_ws inp with
+  | 34 :: r =>
+    obind (j_string [] r) (fun '(k, r1) =>
+      match skip_ws r1 with
+      | 58 :: r2 =>
+        obind (j_value f r2) (fun '(v, r3) =>
+          match skip_ws r3 with
+          | 44 :: r4 => j_members f (obj_set k v o) r4
+          | 125 :: r4 => Ok (JObj (obj_set k v o), r4)
+          | _ => Err 1
+          end)
+      | _ => Err 1
+      end)
+  | _ => Err 1
+  end.
+Proof. reflexivity. Qed.
+
+(* a value, possibly after white space, followed by a delimiter *)
+Definition jval_ok (st : style) (d : nat) (j : json) : Prop := forall w f rest,
+  wsn_ok w = true -> (2 * length (w ++ print st d j ++ rest) < f)%nat -> delim_start rest ->
+  j_value f (w ++ print st d j ++ rest) = Ok (canon j, rest).
+
+Section JsonDocs.
+  Variable st : style.
+  Hypothesis ST : style_ok st.
+
+  (* a rendered value starts with a character that is neither white space nor a
+     closing bracket nor a comma *)
+  Lemma head_ok j d : restricted j = true ->
+    exists c t, print st d j = c :: t /\ mem c [32; 9; 10; 13; 93; 125; 44] = false.
+  Proof.
+    intro R. destruct j as [|[|]|tok|s|l|kvs]; try (eexists; eexists; split; [reflexivity|reflexivity]).
+    - cbn [restricted] in R. destruct (num_ok_parts tok R) as (_ & NE & NC & _).
+      destruct tok as [|c t]; [congruence|]. exists c, t. split; [reflexivity|].
+      cbn [forallb] in NC. apply andb_true_iff in NC as [Hc _].
+      unfold num_char, is_digit, mem in *. cbn [existsb] in *. lia.
+  Qed.
+
+  Lemma j_items_ok d l : l <> [] -> Forall (jval_ok st (S d)) l -> Forall (fun j => restricted j = true) l ->
+    forall w f acc rest, wsn_ok w = true ->
+    (2 * length (w ++ items st d l ++ s_close st d ++ 93%N :: rest) + 1 < f)%nat ->
+    j_items f acc (w ++ items st d l ++ s_close st d ++ 93 :: rest) = Ok (JArr (rev acc ++ map canon l), rest).
+  Proof.
+    destruct (ST d) as (_ & Wcb & Wca & _ & _ & Wc & _).
+    intros NE F. revert NE. induction F as [|x l Hx Hl IH]; intros NE RS w f acc rest W L; [congruence|].
+    inversion RS as [|? ? Rx Rl]; subst.
+    destruct f as [|f]; [lia|]. rewrite j_items_step.
+    destruct l as [|y l'].
+    - change (items st d [x]) with (print st (S d) x) in *.
+      rewrite (Hx w f (s_close st d ++ 93 :: rest) W); [|lia|apply delim_start_ws; [exact Wc|reflexivity]].
+      cbn [obind]. rewrite (skip_ws_app _ _ Wc). cbn [skip_ws mem existsb N.eqb Pos.eqb orb].
+      cbn [map rev]. reflexivity.
+    - change (items st d (x :: y :: l')) with (print st (S d) x ++ s_cb st d ++ 44 :: s_ca st d ++ items st d (y :: l')) in *.
+      norm_app.
+      rewrite (Hx w f _ W); [|lia|apply delim_start_ws; [apply ws_wsn; exact Wcb|reflexivity]].
+      cbn [obind]. rewrite (skip_ws_app _ _ (ws_wsn _ Wcb)). cbn [skip_ws mem existsb N.eqb Pos.eqb orb].
+      rewrite (IH ltac:(discriminate) Rl (s_ca st d) f (canon x :: acc) rest Wca).
+      + cbn [map rev]. rewrite <- app_assoc. reflexivity.
+      + len_lia.
+  Qed.
+
+  Lemma jarr_inner d l : Forall (jval_ok st (S d)) l -> Forall (fun j => restricted j = true) l ->
+    forall f rest, (2 * length (arr_body st d l ++ 93%N :: rest) + 1 < f)%nat ->
+    match skip_ws (arr_body st d l ++ 93 :: rest) with
+    | 93 :: r' => Ok (JArr [], r')
+    | _ => j_items f [] (arr_body st d l ++ 93 :: rest)
+    end = Ok (JArr (map canon l), rest).
+  Proof.
+    destruct (ST d) as (Wo & _ & _ & _ & _ & Wc & We). intros F RS f rest L. unfold arr_body in *.
+    destruct l as [|x l'].
+    - rewrite (skip_ws_app _ _ We). reflexivity.
+    - norm_app. rewrite (skip_ws_app _ _ Wo).
+      inversion RS as [|? ? Rx Rl]; subst.
+      destruct (head_ok x (S d) Rx) as (c & t & E & HC).
+      assert (HD : exists tl, items st d (x :: l') ++ s_close st d ++ 93 :: rest = c :: tl).
+      { destruct l' as [|y l''].
+        - change (items st d [x]) with (print st (S d) x). rewrite E. eexists. reflexivity.
+        - change (items st d (x :: y :: l'')) with (print st (S d) x ++ s_cb st d ++ 44 :: s_ca st d ++ items st d (y :: l'')).
+          rewrite E. eexists. reflexivity. }
+      destruct HD as (tl & HD). rewrite HD.
+      rewrite skip_ws_head by (unfold mem in *; cbn [existsb] in *; lia).
+      assert (c <> 93) by (unfold mem in HC; cbn [existsb] in HC; lia).
+      assert ((match c :: tl with 93 :: r' => Ok (JArr [], r') | _ => j_items f [] (s_open st d ++ c :: tl) end)
+              = j_items f [] (s_open st d ++ c :: tl)) as ->.
+      { destruct c as [|p]; [reflexivity|]. repeat (destruct p as [p|p|]; try reflexivity). congruence. }
+      rewrite <- HD. rewrite (j_items_ok d (x :: l') ltac:(discriminate) F RS (s_open st d) f [] rest Wo L). reflexivity.
+  Qed.
+
+  Definition jkv_ok (d : nat) (kv : bytes * json) : Prop :=
+    str_ok (fst kv) = true /\ jval_ok st (S d) (snd kv).
+
+  Lemma j_members_ok d kvs : kvs <> [] -> Forall (jkv_ok d) kvs ->
+    forall w f o rest, wsn_ok w = true ->
+    (2 * length (w ++ pairs st d kvs ++ s_close st d ++ 125%N :: rest) + 1 < f)%nat ->
+    j_members f o (w ++ pairs st d kvs ++ s_close st d ++ 125 :: rest) =
+      Ok (JObj (fold_left (fun o kv => obj_set (fst kv) (canon (snd kv)) o) kvs o), rest).
+  Proof.
+    destruct (ST d) as (_ & Wcb & Wca & Wcolb & Wcola & Wc & _).
+    intros NE F. revert NE. induction F as [|kv l Hkv Hl IH]; intros NE w f o rest W L; [congruence|].
+    destruct Hkv as [K V]. destruct kv as [k v]. cbn [fst snd] in *.
+    destruct f as [|f]; [lia|]. rewrite j_members_step.
+    destruct l as [|kv2 l'].
+    - change (pairs st d [(k, v)]) with (pair st d (k, v)) in *. unfold pair in *. cbn [fst snd] in *. norm_app.
+      rewrite (skip_ws_app _ _ W). cbn [skip_ws mem existsb N.eqb Pos.eqb orb].
+      rewrite (j_string_ok k [] _ K). cbn [obind rev app].
+      rewrite (skip_ws_app _ _ (ws_wsn _ Wcolb)). cbn [skip_ws mem existsb N.eqb Pos.eqb orb].
+      rewrite (V (s_cola st d) f (s_close st d ++ 125 :: rest) (ws_wsn _ Wcola));
+        [|len_lia
+         |apply delim_start_ws; [exact Wc|reflexivity]].
+      cbn [obind]. rewrite (skip_ws_app _ _ Wc). cbn [skip_ws mem existsb N.eqb Pos.eqb orb fold_left fst snd]. reflexivity.
+    - change (pairs st d ((k, v) :: kv2 :: l')) with (pair st d (k, v) ++ s_cb st d ++ 44 :: s_ca st d ++ pairs st d (kv2 :: l')) in *.
+      unfold pair in *. cbn [fst snd] in *. norm_app.
+      rewrite (skip_ws_app _ _ W). cbn [skip_ws mem existsb N.eqb Pos.eqb orb].
+      rewrite (j_string_ok k [] _ K). cbn [obind rev app].
+      rewrite (skip_ws_app _ _ (ws_wsn _ Wcolb)). cbn [skip_ws mem existsb N.eqb Pos.eqb orb].
+      rewrite (V (s_cola st d) f _ (ws_wsn _ Wcola));
+        [|len_lia
+         |apply delim_start_ws; [apply ws_wsn; exact Wcb|reflexivity]].
+      cbn [obind]. rewrite (skip_ws_app _ _ (ws_wsn _ Wcb)). cbn [skip_ws mem existsb N.eqb Pos.eqb orb].
+      rewrite (IH ltac:(discriminate) (s_ca st d) f (obj_set k (canon v) o) rest Wca); [reflexivity|].
+      len_lia.
+  Qed.
+
+  Lemma jobj_inner d kvs : Forall (jkv_ok d) kvs ->
+    forall f rest, (2 * length (obj_body st d kvs ++ 125%N :: rest) + 1 < f)%nat ->
+    match skip_ws (obj_body st d kvs ++ 125 :: rest) with
+    | 125 :: r' => Ok (JObj [], r')
+    | _ => j_members f [] (obj_body st d kvs ++ 125 :: rest)
+    end = Ok (JObj (fold_left (fun o kv => obj_set (fst kv) (canon (snd kv)) o) kvs []), rest).
+  Proof.
+    destruct (ST d) as (Wo & _ & _ & _ & _ & Wc & We). intros F f rest L. unfold obj_body in *.
+    destruct kvs as [|kv l'].
+    - rewrite (skip_ws_app _ _ We). reflexivity.
+    - norm_app. rewrite (skip_ws_app _ _ Wo).
+      assert (HD : exists tl, pairs st d (kv :: l') ++ s_close st d ++ 125 :: rest = 34 :: tl).
+      { destruct l' as [|kv2 l'']; [change (pairs st d [kv]) with (pair st d kv)
+          |change (pairs st d (kv :: kv2 :: l'')) with (pair st d kv ++ s_cb st d ++ 44 :: s_ca st d ++ pairs st d (kv2 :: l''))];
+          unfold pair; eexists; reflexivity. }
+      destruct HD as (tl & HD). rewrite HD. cbn [skip_ws mem existsb N.eqb Pos.eqb orb].
+      rewrite <- HD. apply (j_members_ok d (kv :: l') ltac:(discriminate) F (s_open st d) f [] rest Wo L).
+  Qed.
+
+  Lemma jboth j : forall d, restricted j = true -> jval_ok st d j.
+  Proof.
+    induction j as [|b0|tok|s|l IH|kvs IH] using json_ind'; intros d R w f rest W L T.
+    - (* null *)
+      destruct f as [|f]; [lia|]. rewrite j_value_step, (skip_ws_app _ _ W). cbn [print app skip_ws mem existsb N.eqb Pos.eqb orb].
+      change (110 :: 117 :: 108 :: 108 :: rest) with ([110; 117; 108; 108] ++ rest).
+      rewrite (j_token_ok [110; 117; 108; 108] rest eq_refl (delim_jdelim rest T)). reflexivity.
+    - destruct f as [|f]; [lia|]. rewrite j_value_step, (skip_ws_app _ _ W). destruct b0.
+      + cbn [print app skip_ws mem existsb N.eqb Pos.eqb orb].
+        change (116 :: 114 :: 117 :: 101 :: rest) with ([116; 114; 117; 101] ++ rest).
+        rewrite (j_token_ok [116; 114; 117; 101] rest eq_refl (delim_jdelim rest T)). reflexivity.
+      + cbn [print app skip_ws mem existsb N.eqb Pos.eqb orb].
+        change (102 :: 97 :: 108 :: 115 :: 101 :: rest) with ([102; 97; 108; 115; 101] ++ rest).
+        rewrite (j_token_ok [102; 97; 108; 115; 101] rest eq_refl (delim_jdelim rest T)). reflexivity.
+    - (* number *)
+      cbn [restricted] in R. destruct (num_ok_parts tok R) as (_ & NE & NC & _).
+      destruct f as [|f]; [lia|]. rewrite j_value_step, (skip_ws_app _ _ W). cbn [print canon].
+      destruct tok as [|c t]; [congruence|].
+      pose proof NC as NC'. cbn [forallb] in NC'. apply andb_true_iff in NC' as [Hc _].
+      destruct (num_char_json c Hc) as (_ & E0 & E1 & E2 & E3).
+      cbn [app]. rewrite (skip_ws_head _ _ E0), E1, E2, E3.
+      change (c :: t ++ rest) with ((c :: t) ++ rest).
+      rewrite (j_token_ok (c :: t) rest (num_token _ NC) (delim_jdelim rest T)).
+      rewrite (j_scalar_num (c :: t) R). reflexivity.
+    - (* string *)
+      cbn [restricted] in R. destruct f as [|f]; [lia|]. rewrite j_value_step, (skip_ws_app _ _ W).
+      cbn [print app canon skip_ws mem existsb N.eqb Pos.eqb orb]. rewrite <- app_assoc. cbn [app].
+      rewrite (j_string_ok s [] rest R). reflexivity.
+    - (* array *)
+      cbn [restricted] in R.
+      assert (EL : Forall (jval_ok st (S d)) l).
+      { rewrite Forall_forall in IH |- *. intros x I. apply IH; [exact I|]. rewrite forallb_forall in R. apply R; exact I. }
+      assert (RS : Forall (fun j => restricted j = true) l) by (apply Forall_forall; rewrite forallb_forall in R; exact R).
+      destruct f as [|f]; [lia|]. rewrite j_value_step, (skip_ws_app _ _ W).
+      rewrite print_arr in *. cbn [app canon skip_ws mem existsb N.eqb Pos.eqb orb]. rewrite <- app_assoc in *. cbn [app] in *.
+      apply jarr_inner; [exact EL|exact RS|]. len_lia.
+    - (* object *)
+      cbn [restricted] in R.
+      assert (KV : Forall (jkv_ok d) kvs).
+      { rewrite Forall_forall in IH |- *. intros kv I. rewrite forallb_forall in R. specialize (R kv I).
+        apply andb_true_iff in R as [K V]. split; [exact K|]. apply IH; assumption. }
+      destruct f as [|f]; [lia|]. rewrite j_value_step, (skip_ws_app _ _ W).
+      rewrite print_obj in *. cbn [app canon skip_ws mem existsb N.eqb Pos.eqb orb]. rewrite <- app_assoc in *. cbn [app] in *.
+      apply jobj_inner; [exact KV|]. len_lia.
+  Qed.
+
+  (* print / json_parse round trip: the reference parser reads every rendering
+     back as the value the document denotes *)
+  Theorem json_parse_print j : restricted j = true -> top j ->
+    json_parse (print st 0 j) = Ok (canon j).
+  Proof.
+    intros R TOP. unfold json_parse. destruct j as [| | | |l|kvs]; try contradiction.
+    - cbn [restricted] in R.
+      assert (EL : Forall (jval_ok st 1) l).
+      { apply Forall_forall. intros x I. apply jboth. rewrite forallb_forall in R. apply R; exact I. }
+      assert (RS : Forall (fun j => restricted j = true) l) by (apply Forall_forall; rewrite forallb_forall in R; exact R).
+      rewrite print_arr. set (n := length (91 :: arr_body st 0 l ++ [93])).
+      replace (2 * n + 2)%nat with (S (2 * n + 1)) by lia. rewrite j_value_step.
+      cbn [skip_ws mem existsb N.eqb Pos.eqb orb].
+      rewrite (jarr_inner 0 l EL RS (2 * n + 1) []); [reflexivity|unfold n; cbn [length]; lia].
+    - cbn [restricted] in R.
+      assert (KV : Forall (jkv_ok 0) kvs).
+      { apply Forall_forall. intros kv I. rewrite forallb_forall in R. specialize (R kv I).
+        apply andb_true_iff in R as [K V]. split; [exact K|]. apply jboth; exact V. }
+      rewrite print_obj. set (n := length (123 :: obj_body st 0 kvs ++ [125])).
+      replace (2 * n + 2)%nat with (S (2 * n + 1)) by lia. rewrite j_value_step.
+      cbn [skip_ws mem existsb N.eqb Pos.eqb orb].
+      rewrite (jobj_inner 0 kvs KV (2 * n + 1) []); [reflexivity|unfold n; cbn [length]; lia].
+  Qed.
+End JsonDocs.
+
+(* ------------------------------------------------------------ literal = JSON *)
+(* txt is a rendering of a restricted array or object document *)
+Definition rendering (txt : bytes) : Prop :=
+  exists st j, style_ok st /\ restricted j = true /\ top j /\ txt = print st 0 j.
+
+Theorem literal_eq_json txt : rendering txt -> lit_parse (37 :: txt) = json_parse txt.
+Proof.
+  intros (st & j & ST & R & T & ->).
+  rewrite (literal_value st ST j R T), (json_parse_print st ST j R T). reflexivity.
+Qed.
+
+(* ------------------------------------------------------------ the styles of the generator *)
+Lemma wsn_indent n : wsn_ok (10 :: repeat 32 n) = true.
+Proof. unfold wsn_ok. cbn [forallb]. induction n as [|n IH]; [reflexivity|]. cbn [repeat forallb] in *. exact IH. Qed.
+
+(* encoding/json.MarshalIndent(v, "", ind): a line break and depth+1 (depth)
+   copies of the indentation after an opening bracket or comma (before a closing
+   bracket), `: ` after a key, nothing inside empty containers *)
+Definition indent_style (k : nat) : style :=
+  {| s_open := fun d => 10 :: repeat 32 (k * S d); s_cb := fun _ => []; s_ca := fun d => 10 :: repeat 32 (k * S d);
+     s_colb := fun _ => []; s_cola := fun _ => [32]; s_close := fun d => 10 :: repeat 32 (k * d);
+     s_empty := fun _ => [] |}.
+Lemma indent_style_ok k : style_ok (indent_style k).
+Proof. intro d. cbn [indent_style s_open s_cb s_ca s_colb s_cola s_close s_empty]. repeat split; try reflexivity; apply wsn_indent. Qed.
+
+Definition const_style (o cb ca colb cola cl e : bytes) : style :=
+  {| s_open := fun _ => o; s_cb := fun _ => cb; s_ca := fun _ => ca; s_colb := fun _ => colb;
+     s_cola := fun _ => cola; s_close := fun _ => cl; s_empty := fun _ => e |}.
+Lemma const_style_ok o cb ca colb cola cl e :
+  wsn_ok o = true -> ws_ok cb = true -> wsn_ok ca = true -> ws_ok colb = true -> ws_ok cola = true ->
+  wsn_ok cl = true -> wsn_ok e = true -> style_ok (const_style o cb ca colb cola cl e).
+Proof. intros. intro d. cbn. auto 10. Qed.
+
+(* any layout made of a line-break string and an indentation unit repeated once
+   per level (tabs, CRLF line ends, ...) *)
+Lemma wsn_app a b : wsn_ok a = true -> wsn_ok b = true -> wsn_ok (a ++ b) = true.
+Proof. unfold wsn_ok. intros A B. rewrite forallb_app, A, B. reflexivity. Qed.
+Lemma wsn_repeat u n : wsn_ok u = true -> wsn_ok (concat (repeat u n)) = true.
+Proof. intro U. induction n as [|n IH]; [reflexivity|]. cbn [repeat concat]. apply wsn_app; assumption. Qed.
+
+Definition layout_style (nl unit cola : bytes) : style :=
+  {| s_open := fun d => nl ++ concat (repeat unit (S d)); s_cb := fun _ => [];
+     s_ca := fun d => nl ++ concat (repeat unit (S d)); s_colb := fun _ => []; s_cola := fun _ => cola;
+     s_close := fun d => nl ++ concat (repeat unit d); s_empty := fun _ => [] |}.
+Lemma layout_style_ok nl unit cola : wsn_ok nl = true -> wsn_ok unit = true -> ws_ok cola = true ->
+  style_ok (layout_style nl unit cola).
+Proof.
+  intros N U C d. cbn [layout_style s_open s_cb s_ca s_colb s_cola s_close s_empty].
+  repeat split; try reflexivity; try exact C; apply wsn_app; try exact N; apply wsn_repeat; exact U.
+Qed.
